@@ -65,7 +65,8 @@ def calls_for(d: Doc) -> list[tuple[str, int]]:
         for op in ('claim_leading', 'unclaim_leading', 'claim_trailing', 'unclaim_trailing'):
             out.append((op, k))
     for k, _ in enumerate(d.wrappers):
-        out += [('claim_inner', k), ('unclaim_inner', k), ('claim_inner_one', k), ('unclaim_inner_one', k)]
+        out += [('claim_inner', k), ('unclaim_inner', k), ('claim_inner_one', k), ('unclaim_inner_one', k),
+                ('claim_inner_bad', k), ('unclaim_inner_bad', k)]
     autos = [k for k, (p, m) in enumerate(d.nodes) if isinstance(m, base.RawTreeModel) and not isinstance(m, Repeated)]
     out += [('auto', k) for k in autos[:6]]
     return out
@@ -79,7 +80,7 @@ def perform(d: Doc, call: tuple[str, int], txtids: dict, prev_auto: Optional[int
             m = d.mixins[k]
             ev['who'] = d.ids[id(m)]
             getattr(m, op + '_comment')()
-        elif op in ('claim_inner', 'unclaim_inner', 'claim_inner_one', 'unclaim_inner_one'):
+        elif op in ('claim_inner', 'unclaim_inner', 'claim_inner_one', 'unclaim_inner_one', 'claim_inner_bad', 'unclaim_inner_bad'):
             w, rep = d.wrappers[k]
             ev['who'] = d.ids.get(id(rep), -1)
             if op == 'claim_inner':
@@ -90,6 +91,16 @@ def perform(d: Doc, call: tuple[str, int], txtids: dict, prev_auto: Optional[int
                 ev['op'] = 'claim_inner'
                 free = [c for c in d.comments if not c.claimed]
                 w.claim_interleaving_comments(free[:1])
+            elif op == 'claim_inner_bad':
+                # a request that cannot be satisfied as a whole (one comment is not there): must be refused,
+                # and the comments that WERE found must stay exactly as they were
+                ev['op'] = 'claim_inner'
+                free = [c for c in d.comments if not c.claimed]
+                w.claim_interleaving_comments(free[:1] + [models.BlockComment.from_value('not in this document')])
+            elif op == 'unclaim_inner_bad':
+                ev['op'] = 'unclaim_inner'
+                mine = [it for it in rep.items if isinstance(it, models.BlockComment)]
+                w.unclaim_interleaving_comments(mine[:1] + [models.BlockComment.from_value('not in this document')])
             else:
                 ev['op'] = 'unclaim_inner'
                 mine = [it for it in rep.items if isinstance(it, models.BlockComment)]
